@@ -300,6 +300,47 @@ theorem inv_delete (st : St) (hinv : Inv st) (i : Nat) (k : String) : Inv (qstep
       simpa using hk
     · exact hinv.2 i k' e hs hold
 
+/-- `expire` with a non-positive time (as repaired, D37): the server deletes the key, the caller remembers "absent" -/
+theorem inv_expire_zero (st : St) (hinv : Inv st) (i : Nat) (k : String) :
+    Inv (deliverAll (srvCmd ({ st with cl := upd st.cl i ((st.cl i).lset (now st) k .absent none) } : St) (.pexpire k 0)).1) := by
+  generalize hst0 : ({ st with cl := upd st.cl i ((st.cl i).lset (now st) k .absent none) } : St) = st0
+  have h0srv : st0.srv = st.srv := by subst hst0; rfl
+  have h0enc : st0.isEnc = st.isEnc := by subst hst0; rfl
+  have h0cl : ∀ j, j ≠ i → st0.cl j = st.cl j := by intro j hj; subst hst0; simp [upd, hj]
+  have hcli : st0.cl i = (st.cl i).lset (now st) k .absent none := by subst hst0; simp [upd]
+  have h0i : (st0.cl i).queue = [] ∧ (st0.cl i).started = (st.cl i).started ∧ (st0.cl i).tracking = (st.cl i).tracking := by
+    rw [hcli]; exact ⟨(hinv.1 i).1, rfl, rfl⟩
+  generalize hst1 : (srvCmd st0 (.pexpire k 0)).1 = st1
+  obtain ⟨a1, a2, a3, a4, a5, b1, b2, b3, b4⟩ := after_write st st0 st1 st1 i (.pexpire k 0) rfl hinv h0srv h0enc h0cl h0i hst1.symm
+    rfl rfl (fun _ _ => rfl) ⟨rfl, rfl, rfl⟩
+  refine inv_after st st1 i _ hinv a1 a2 a3 a4 a5 ?_
+  intro hs
+  have htr : (st.cl i).tracking = true := ((hinv.1 i).2 hs).1
+  have hnm : (st.cl i).noMarks (now st) := ((hinv.1 i).2 hs).2
+  have hq := a3 i
+  rw [htr, if_pos rfl] at hq
+  have hm1 : (st1.cl i).noMarks (now st) := by
+    intro k'; simp only [Client.marked, b2, hcli, Client.lset]; exact hnm k'
+  obtain ⟨g1, g2⟩ := deliverClient_keys (now st) (st1.cl i) _ hq hm1
+  refine ⟨?_, ?_⟩
+  · intro k'; simp only [Client.marked, g2]; exact hm1 k'
+  · intro k' e he
+    have hk : k' ∉ touched st.srv (.pexpire k 0) := by
+      intro hk; simp [Client.lfind, g1 k', hk] at he
+    have he' : ((st.cl i).lset (now st) k .absent none).lfind (now st) k' = some e := by
+      simpa [Client.lfind, g1 k', hk, b1, hcli] using he
+    unfold agreeEntry
+    rw [a4 k' hk]
+    rcases lfind_lset he' with ⟨rfl, hval⟩ | ⟨hne, hold⟩
+    · rw [hval]
+      -- not announced, so it was not there
+      apply srvValue_of_absent
+      simp only [touched] at hk
+      cases hp : st.srv.ks.present k' with
+      | false => rfl
+      | true => simp [hp] at hk
+    · exact hinv.2 i k' e hs hold
+
 /-- every stored key is listed (so that expiry can find it) -/
 def DomOK (s : KS) : Prop := ∀ k, (s.m k).isSome = true → k ∈ s.dom
 
@@ -916,9 +957,14 @@ theorem inv_expire_with (st : St) (hinv : Inv st) (i : Nat) (k : String) (ms : N
     unfold agreeEntry at this ⊢
     rw [hval k']; exact this
 
-theorem inv_expire (st : St) (hinv : Inv st) (i : Nat) (k : String) (ms : Nat) (hms : 0 < ms) :
+theorem inv_expire (st : St) (hinv : Inv st) (i : Nat) (k : String) (ms : Nat) :
     Inv (qstep st (.expire i k ms)).1 := by
-  simp only [qstep, step]
+  by_cases hz : ms = 0
+  · subst hz
+    simp only [qstep, step, if_true]
+    exact inv_expire_zero st hinv i k
+  have hms : 0 < ms := Nat.pos_of_ne_zero hz
+  simp only [qstep, step, hz, if_false]
   split
   · rename_i v dl hf
     exact inv_expire_with st hinv i k ms hms _ (by rw [hf])
